@@ -45,7 +45,7 @@ TReset ==
   /\ cpc' = [c \in Clients |-> "idle"] /\ apc' = [a \in Answers |-> "idle"]
   /\ pnat' = [p \in Proxies |-> None] /\ pload' = [p \in Proxies |-> None] /\ psid' = [p \in Proxies |-> None]
   /\ cnat' = [c \in Clients |-> None] /\ cfp' = [c \in Clients |-> None]
-  /\ atarget' = [a \in Answers |-> None]
+  /\ atarget' = [a \in Answers |-> None] /\ dbg' = 0
   /\ heapU' = {} /\ heapR' = {} /\ idmap' = {} /\ gauge' = 0
   /\ woffer' = [p \in Proxies |-> None] /\ claimed' = [c \in Clients |-> None]
   /\ asnow' = [a \in Answers |-> None] /\ abuf' = [p \in Proxies |-> None]
@@ -179,6 +179,9 @@ TASent ==
 TADropped == Is("a.dropped") /\ D2Fixed /\ apc[Ev.a] = "done" /\ aresp[Ev.a].put = FALSE /\ UNCHANGED vars /\ Keep /\ Adv
 TAResp == Is("a.resp") /\ apc[Ev.a] = "done" /\ aresp[Ev.a].kind = Ev.kind /\ UNCHANGED vars /\ Keep /\ Adv
 
+(* /debug served: it reports the number of registered snowflakes and changes nothing *)
+TDebug == Is("debug") /\ Ev.avail >= 0 /\ (Ev.exact => Ev.avail = Cardinality(idmap)) /\ DebugPoll /\ Keep /\ Adv
+
 (* a metrics critical section was entered (lock probe, C20) *)
 TMLocked == Is("m.locked") /\ LockOK /\ UNCHANGED vars /\ Keep /\ Adv
 
@@ -224,7 +227,7 @@ TMetrics ==
 TNext ==
   \/ TReset \/ TAdd \/ TMatch \/ TOfferGate \/ TSent \/ TWOffer \/ TForwarded \/ TGot
   \/ TWTimeout \/ TWLocked \/ TWClaimed \/ TPResp \/ TCAnswer \/ TCTimeout \/ TCPre \/ TCCleanup \/ TCResp
-  \/ TALookup \/ TASendGate \/ TSilentSend \/ TSilentGet \/ TASent \/ TADropped \/ TAResp \/ TTick \/ TEnd \/ TMetrics \/ TMLocked
+  \/ TALookup \/ TASendGate \/ TSilentSend \/ TSilentGet \/ TASent \/ TADropped \/ TAResp \/ TTick \/ TEnd \/ TMetrics \/ TMLocked \/ TDebug
 
 TSpec == TInit /\ [][TNext]_tvars
 
